@@ -6,6 +6,17 @@ from numgen import D, W64, W128, W256, grid256, grid128, rand_limbs, loguniform
 
 def values(rng, tier):
     g = set(grid256())
+    # every combination of four 64-bit limbs drawn from {0, 1, 10^18, 2^64-1}: zero limbs above, between and below non-zero
+    # ones, upper limbs that are multiples of 10^18 (where limb-wise short division by 10^18 leaves no remainder) - the
+    # patterns on which hand-written limb loops with early exits go wrong (C18-agent16: Display dropped the limbs below a
+    # zero limb); plus a few multiples k*10^18 in the upper limbs over a non-zero low part
+    for limbs in itertools.product((0, 1, D, W64 - 1), repeat=4):
+        g.add(limbs[0] | (limbs[1] << 64) | (limbs[2] << 128) | (limbs[3] << 192))
+    for k in (2, 7, 18):
+        for sh in (128, 192):
+            for low in (1, D // 2, W64, W128 - 1):
+                if sh == 192 or low < W128:
+                    g.add(((k * D) << sh) + low)
     n = 40 if tier == "quick" else 600
     for _ in range(n):
         a = rng.choice([1, 7, 12345, loguniform(rng, 1, 190)])
